@@ -6,7 +6,7 @@ from ..lib import call
 from .c05 import deviation_ok
 
 PROP = "C06"
-PLAN = {"quick": (1400, 300), "thorough": (20000, 3000)}
+PLAN = {"quick": (1400, 300), "thorough": (80000, 3600)}
 RULE = ("case = (curve, t, regime, via method|setter); regimes: elevate (p<=4, t in 1..3: Bezier, multi-span, mixed "
         "multiplicities, multiplicity p+1, interior knot 0, rational), reduce-exact (curve built by the reference "
         "elevation of a degree-q curve, reduced by the same t), reduce-generic (random curve, default tolerance or "
